@@ -14,8 +14,11 @@ MAX = 2 ** 64 - 1
 U64_EDGE = [0, 1, 2, 9, 10, 99, 100, 101, 2 ** 31 - 1, 2 ** 31, 2 ** 32 - 1, 2 ** 32, 2 ** 53, 2 ** 63, MAX - 1, MAX]
 U8_EDGE = [0, 1, 50, 99, 100, 101, 127, 128, 254, 255]
 STR_EDGE = ["", "a", "Some Playlist", " ", "\t", "a\rb", 'say "hi" now', "it's here", "Joe's", "a\\b", 'x"y', "é", "日本 語",
-            "tab\there", "a\nb", "a\x00b", "\n", "trailing ", " leading", "NAS/Musik/Ärzte/01 - Lied.flac", "x" * 300, "+1", "3:4", "-"]
-STR_PLAIN = ["a", "Some Playlist", "file.flac", "dir/sub dir/x.ogg", "é", "channel_1", "it's here", "rating"]
+            "tab\there", "a\nb", "a\x00b", "\n", "trailing ", " leading", "NAS/Musik/Ärzte/01 - Lied.flac", "x" * 300, "+1", "3:4", "-",
+            "/", ".", "..", "~", "*", "a/", "/a", "0", "root", "none", "all"]
+STR_PLAIN = ["a", "Some Playlist", "file.flac", "dir/sub dir/x.ogg", "é", "channel_1", "it's here", "rating",
+             # strings a "normalising" special case might single out
+             "/", ".", "..", "~", "*", "%", "a/", "/a", "//", "0", "-1", "root", "null", "none", "all", "any"]
 DUR_EDGE = [(0, 0), (0, 1), (0, 499_999), (0, 500_000), (0, 500_001), (0, 999_499_999), (0, 999_500_000), (0, 999_999_999),
             (1, 500_000), (0, 1_500_000), (0, 2_500_000), (0, 62_500_000), (0, 312_500_000), (0, 187_500_000), (2, 345_670_000),
             (59, 999_999_999), (3600, 0), (2 ** 32, 0), (2 ** 32, 500_000), (2 ** 32, 1_500_000), (2 ** 42, 500_000), (2 ** 43, 500_000),
